@@ -588,10 +588,71 @@ fn bigints() -> Vec<BigInt> {
     v
 }
 
+/// The way back: a Liquid integer moved through serde into every Rust integer type is either
+/// rejected or the same number, never a different one (wrapped or truncated).
+#[derive(Clone, Debug, Serialize, Deserialize)]
+pub struct BackCase {
+    pub n: i64,
+}
+
+fn back_oracle(c: &BackCase, obs: &mut Obs) -> Check {
+    if c.n < 0 || c.n > i32::MAX as i64 {
+        obs.nt(&c.n);
+    }
+    let v = Value::scalar(c.n);
+    macro_rules! target {
+        ($t:ty) => {{
+            #[derive(Deserialize)]
+            struct S {
+                #[allow(dead_code)]
+                f: $t,
+            }
+            let direct = guard(|| liquid::model::from_value::<$t>(&v).map(|x| x as i128).map_err(|e| e.to_string()));
+            let mut o = liquid::Object::new();
+            o.insert("f".into(), v.clone());
+            let field = guard(|| liquid::model::from_value::<S>(&Value::Object(o.clone())).map(|s| s.f as i128).map_err(|e| e.to_string()));
+            for (how, r) in [("bare", direct), ("struct field", field)] {
+                match r {
+                    Err(p) => return Err(Failure::new(format!("integers: from_value panics: {}", p.site()), format!("{} -> {} ({how}) {}", c.n, stringify!($t), p.what))),
+                    Ok(Err(_)) => {
+                        if <$t>::try_from(c.n).is_ok() {
+                            return Err(Failure::new("integers: an integer that fits the target type is rejected on the way back", format!("{} -> {} ({how})", c.n, stringify!($t))));
+                        }
+                    }
+                    Ok(Ok(x)) if x == c.n as i128 => {}
+                    Ok(Ok(x)) => return Err(Failure::new("integers: an integer was turned into a different integer on the way back", format!("{} -> {} ({how}) became {x}", c.n, stringify!($t)))),
+                }
+            }
+        }};
+    }
+    target!(u8);
+    target!(u16);
+    target!(u32);
+    target!(u64);
+    target!(usize);
+    target!(i8);
+    target!(i16);
+    target!(i32);
+    target!(i64);
+    target!(isize);
+    Ok(())
+}
+
 pub fn run(ctx: &Ctx) {
-    ctx.set_rule("E1: (a) recursive values (depth <= 4; every scalar kind incl. dates and date-times with sub-seconds and offsets; arrays; objects of 0..6 keys) observed through &v, ValueCow::Owned/Borrowed, to_value(), as_view(), Some(v), serde to_value / from_value::<Value> / from_value::<serde_json::Value> (kind), JSON and YAML text round trips: identical type_name, truthy/default/empty/blank, is_*, scalar conversions, structure, and (single-key containers) to_kstr/render/source; (b) a family of structs with derive(Serialize, Deserialize, ObjectView, ValueView) (every field type, Option, Vec, nested struct, Vec of structs, BTreeMap/HashMap, zero-field struct, fields named size/first) rendered through ~150 probes per instance (output, if, size, == empty/blank/nil, default, for, contains, map/where/sort/join) once exposed through the derive and once through to_object; plus serde-only enums/tuples/newtypes round-tripped; (c) E2: integers within +-3 of i64::MIN/MAX, u64::MAX, 2^63, 2^64, 2^62, 2^53, 0 through seven routes (u64, i128, JSON text, YAML text, JSON object, struct field, integer map key). Non-trivial = datum holds a container, a date, an Option or a boundary integer; distinct by datum.");
+    ctx.set_rule("E1: (a) recursive values (depth <= 4; every scalar kind incl. dates and date-times with sub-seconds and offsets; arrays; objects of 0..6 keys) observed through &v, ValueCow::Owned/Borrowed, to_value(), as_view(), Some(v), serde to_value / from_value::<Value> / from_value::<serde_json::Value> (kind), JSON and YAML text round trips: identical type_name, truthy/default/empty/blank, is_*, scalar conversions, structure, and (single-key containers) to_kstr/render/source; (b) a family of structs with derive(Serialize, Deserialize, ObjectView, ValueView) (every field type, Option, Vec, nested struct, Vec of structs, BTreeMap/HashMap, zero-field struct, fields named size/first) rendered through ~150 probes per instance (output, if, size, == empty/blank/nil, default, for, contains, map/where/sort/join) once exposed through the derive and once through to_object; plus serde-only enums/tuples/newtypes round-tripped; (c) E2: integers within +-3 of i64::MIN/MAX, u64::MAX, 2^63, 2^64, 2^62, 2^53, 0 through seven routes (u64, i128, JSON text, YAML text, JSON object, struct field, integer map key), and back: every integer within +-2 of +-2^7 .. 2^62 and of the i64 limits through from_value into each of the 10 Rust integer types up to 64 bits, bare and as a struct field (rejected or the same number). Non-trivial = datum holds a container, a date, an Option or a boundary integer; distinct by datum.");
     ctx.assume("string leaves never spell one of the crate's date formats (serde maps those to dates by design); State markers and NaN are not data");
     ctx.cases("integers", bigints(), bigint_oracle);
+    {
+        let mut v: Vec<i64> = vec![0, 1, -1, i64::MIN, i64::MIN + 1, i64::MAX, i64::MAX - 1];
+        for b in [7u32, 8, 15, 16, 31, 32, 53, 62] {
+            for d in -2i64..=2 {
+                v.push((1i64 << b) + d);
+                v.push(-(1i64 << b) + d);
+            }
+        }
+        ctx.cases("integers_back", v.into_iter().map(|n| BackCase { n }).collect(), back_oracle);
+        ctx.random("integers_back_random", ctx.pick(50_000, 2_000_000), || any::<i64>().prop_map(|n| BackCase { n }), back_oracle);
+    }
     ctx.random("integers_random", ctx.pick(20_000, 2_000_000), || {
         (prop_oneof![any::<i64>().prop_map(|x| x as i128), any::<u64>().prop_map(|x| x as i128), any::<i64>().prop_map(|x| x as i128 * 3)], 0u8..7).prop_map(|(n, route)| BigInt { text: n.to_string(), route })
     }, bigint_oracle);
